@@ -85,3 +85,6 @@ func (w *World) Get(id cid.ID) (container.Container, error) {
 }
 
 func (w *World) Now() time.Time { return w.cfg.Now }
+
+// SetContainer replaces a container of a world that is owned by a single worker (not safe for shared worlds).
+func (w *World) SetContainer(id cid.ID, c container.Container) { w.cfg.Containers[id] = c }
